@@ -62,6 +62,22 @@ theorem vfold_factors {σ : Type} (f : σ → Rat → σ) (init : σ) (xs : List
       rw [step, ih (acc.1 + 1, f acc.2 q)]
       simp [valid, Nat.add_assoc, Nat.add_comm]
 
+/-- **nulls are transparent to every null-skipping fold**: two series with the same non-null
+elements in the same order (nulls inserted or removed anywhere, in either encoding) fold to the
+same count and the same accumulator -/
+theorem vfold_null_transparent {σ : Type} (f : σ → Rat → σ) (init : σ) (xs ys : List (Option Rat))
+    (h : valid xs = valid ys) :
+    vfoldN FVal.isNone FVal.unwrap f init (xs.map FVal.ofOpt)
+      = vfoldN FVal.isNone FVal.unwrap f init (ys.map FVal.ofOpt) := by
+  rw [vfold_factors, vfold_factors, h]
+
+/-- in particular an extra null anywhere changes nothing -/
+theorem vfold_insert_null {σ : Type} (f : σ → Rat → σ) (init : σ) (xs ys : List (Option Rat)) :
+    vfoldN FVal.isNone FVal.unwrap f init ((xs ++ none :: ys).map FVal.ofOpt)
+      = vfoldN FVal.isNone FVal.unwrap f init ((xs ++ ys).map FVal.ofOpt) := by
+  apply vfold_null_transparent
+  simp [valid]
+
 /-- same for the option encoding -/
 theorem vfold_factors_opt {σ : Type} (f : σ → Rat → σ) (init : σ) (xs : List (Option Rat)) :
     vfoldN (fun o : Option Rat => o.isNone) (fun o => o.getD 0) f init xs
